@@ -41,9 +41,22 @@ def gen_obj(rng, dim):
 def gss_case(rep, drv, rng):
 	from stockpyl.optimization import golden_section_search
 	spec, fv = gen_obj(rng, 1)
-	kind = rng.choice(['normal', 'normal', 'normal', 'reversed', 'degenerate', 'tiny'])
+	kind = rng.choice(['normal', 'normal', 'normal', 'reversed', 'degenerate', 'tiny', 'wide-fine'])
 	a = F(rng.randint(-20, 60), 2); b = a + F(rng.randint(1, 80), 2)
 	tol = rng.choice([1e-5, 1e-3, 1e-2, 0.5])
+	if kind == 'wide-fine':
+		# a wide interval with a fine tolerance (many halving steps); a piecewise-linear objective resolves its minimiser far below tol
+		while spec['type'] != 'pwl':
+			spec, fv = gen_obj(rng, 1)
+		if rng.random() < .5:
+			a = F(0); b = F(rng.choice([10 ** 5, 10 ** 6])); tol = 1e-6
+			tt = F(rng.randint(1, 8 * 10 ** 5 * 8), 8)
+		else:
+			a = F(0); b = F(100); tol = 1e-10
+			tt = F(rng.randint(1, 99 * 8), 8)
+		spec = dict(spec, t=[fr(tt)])
+		pp, hh = float(F(spec['p'][0])), float(F(spec['h'][0])); tf = float(tt)
+		fv = lambda x, pp=pp, hh=hh, tf=tf: max(pp * (tf - x[0]), hh * (x[0] - tf))
 	if kind == 'reversed':
 		a, b = b, a
 	elif kind == 'degenerate':
